@@ -3,7 +3,6 @@ package c05
 // Shrinking of failing inputs and their structural classification.
 
 import (
-	"reflect"
 	"strconv"
 	"strings"
 
@@ -167,6 +166,12 @@ func shrinkNormalise(in string, key string) string {
 		for i := 0; i < len(cur); i++ {
 			switch cur[i] {
 			case '\t', '\r', '\n', ',':
+				if cur[i] == '\r' {
+					// a carriage return that is needed as a line terminator becomes a line feed
+					if cand := cur[:i] + "\n" + cur[i+1:]; still(cand) {
+						cur = cand
+					}
+				}
 				if cand := cur[:i] + " " + cur[i+1:]; still(cand) {
 					cur = cand
 				}
@@ -384,6 +389,36 @@ func classify(f failure, min string) (site, class string) {
 			}
 		}
 	}
+	if f.Clause == clauseInside && f.Site == siteBlockLiteral {
+		contents := blockContents(min)
+		for i, t := range toks {
+			if t.kind != tkBlockString {
+				continue
+			}
+			want := strings.Trim(blockInner(t), " \t\r\n")
+			for _, c := range contents {
+				if c.start < t.start+3 || c.start > t.end || c.text == want {
+					continue
+				}
+				role := "description"
+				if isValueString(toks, i) {
+					role = "value"
+				}
+				kind := "differs"
+				switch {
+				case strings.HasSuffix(want, c.text):
+					kind = "starts too late"
+				case strings.HasSuffix(c.text, want):
+					kind = "starts too early"
+				case strings.HasPrefix(want, c.text):
+					kind = "ends too early"
+				case strings.HasPrefix(c.text, want):
+					kind = "ends too late"
+				}
+				return f.Site, role + ": literal " + kind
+			}
+		}
+	}
 	if f.Clause == clauseRT {
 		for i, t := range toks {
 			if t.kind == tkBlockString && !isValueString(toks, i) && strings.Contains(blockInner(t), "\r") {
@@ -543,39 +578,8 @@ func blockContents(in string) []blockContent {
 		}
 		out = append(out, blockContent{int(r.Start), string(p.doc.Input.RawBytes[r.Start:r.End])})
 	}
-	for _, sv := range p.doc.StringValues {
-		if sv.BlockString {
-			add(sv.Content)
-		}
-	}
-	var descs func(v reflect.Value)
-	descs = func(v reflect.Value) {
-		switch v.Kind() {
-		case reflect.Struct:
-			if d, ok := v.Interface().(ast.Description); ok {
-				if d.IsDefined && d.IsBlockString {
-					add(d.Content)
-				}
-				return
-			}
-			for i := 0; i < v.NumField(); i++ {
-				if v.Type().Field(i).IsExported() {
-					descs(v.Field(i))
-				}
-			}
-		case reflect.Slice:
-			if v.Type().Elem().Kind() == reflect.Struct {
-				for i := 0; i < v.Len(); i++ {
-					descs(v.Index(i))
-				}
-			}
-		}
-	}
-	dv := reflect.ValueOf(p.doc).Elem()
-	for i := 0; i < dv.NumField(); i++ {
-		if !docSkip[dv.Type().Field(i).Name] {
-			descs(dv.Field(i))
-		}
+	for _, r := range blockRefsOf(p.doc) {
+		add(r)
 	}
 	return out
 }
